@@ -1,4 +1,5 @@
 import HapVerif.Model.C04
+import HapVerif.Model.C04Filt
 import HapVerif.Drv.Common
 namespace HapVerif.C04
 open HapVerif.Drv
@@ -51,6 +52,112 @@ def requests (rules : List Rule) : List (Str × Str) :=
      (p.map upperC) ++ "/x".toList, (lower p) ++ "/x".toList] ++ parents p) ++ ["/".toList]
   hosts.flatMap fun h => paths.eraseDups.map fun p => (h, p)
 
+/-! ### mode `conv`: rules with declared header conditions through the real converters -/
+
+def parseHMatch (s : String) : Option HMatch :=
+  match s.splitOn "=" with
+  | [n, v] => some ⟨n.toList, v.toList, false⟩
+  | _ =>
+    match s.splitOn "~" with
+    | [n, v] => some ⟨n.toList, v.toList, true⟩
+    | _ => none
+
+/-- `-` nil / absent, `0` empty non-nil / declared empty, else `name=value&name~value` -/
+def parseHdrs (s : String) : Option Hdrs :=
+  if s = "-" then some none
+  else if s = "0" then some (some [])
+  else (s.splitOn "&").mapM parseHMatch |>.map some
+
+def showHdrs : Hdrs → String
+  | none => "-"
+  | some [] => "0"
+  | some l => "&".intercalate (l.map fun m => String.ofList m.name ++ (if m.regex then "~" else "=") ++ String.ofList m.value)
+
+def parseFRule (s : String) : Option FRule :=
+  match s.splitOn "|" with
+  | [h, p, t, n, hs] => do
+    pure { rule := { host := h.toList, path := p.toList, mt := ← parseMT t, target := ← n.toNat? }, decl := ← parseHdrs hs }
+  | _ => none
+
+def parseFFile (s : String) : Option FFile :=
+  match s.splitOn ":" with
+  | [m, l, hs, es] => do
+    pure { file := { method := ← parseMethod m, lower := l = "L", entries := ← parseList parseKV es }, headers := ← parseHdrs hs }
+  | _ => none
+
+def showMT : MT → String | .exact => "E" | .pfx => "P" | .beg => "B"
+
+/-- what the converters leave in `haproxy.Hosts()`: the declared rule with the produced `headers` -/
+def showFed (p : Producer) (r : FRule) : String :=
+  "|".intercalate [String.ofList r.rule.host, String.ofList r.rule.path, showMT r.rule.mt, toString r.rule.target,
+    showHdrs (produce p r.decl)]
+
+def showFFile (f : FFile) : String :=
+  match (showFile f.file).splitOn ":" with
+  | [m, l, es] => m ++ ":" ++ l ++ ":" ++ showHdrs f.headers ++ ":" ++ es
+  | _ => "?"
+
+def showFLayout (fs : List FFile) : String := if fs.isEmpty then "-" else ";".intercalate (fs.map showFFile)
+
+def parseProducer (s : String) : Option Producer :=
+  match s with | "gw" => some .gateway | "ing" => some .ingress | "seeded" => some .seeded | _ => none
+
+/-- header lines of a request that satisfies exactly the conditions `H` asks for -/
+def headersFor (H : List HMatch) : List (Str × Str) := H.map fun m => (m.name, m.value)
+
+/-- signature of a failed lookup of a request that carries headers: the answer is a rule with header
+conditions.  `preempts`: every rule the property allows has no header condition (the file of the answering rule
+is consulted before the exact file and before every file of rules without conditions); otherwise the clash is
+among rules with conditions -/
+def headerSig (rules : List FRule) (sat : HMatch → Bool) (fs : List FFile) (h p : Str) (base : String) : String :=
+  let filtered (t : Nat) : Bool := rules.any fun r => r.rule.target = t ∧ r.conds ≠ []
+  let got := lookupFilesF sat fs (sampleOf h p)
+  let ok := best (applicable rules sat) h p
+  if (got.map filtered).getD false ∧ ok.all (fun t => !filtered t) then
+    "header-rule-preempts-" ++ (if base = "exact-not-selected" then "exact" else if base = "shorter-path-wins" then "longer-path" else base)
+  else "with-headers-" ++ base
+
+def handleConv (mode ord rs impl : String) : Verdict :=
+  match parseProducer mode, parseOrder ord, parseList parseFRule rs with
+  | some prod, some ord, some rules =>
+    let fed := feedOrder rules
+    let es := entriesOfF prod fed
+    let hostOrder := sortG ltStr (hostsOf (es.map (·.e)))
+    let mEnts := if fed.isEmpty then "-" else ",".intercalate (fed.map (showFed prod))
+    let mFiles := rebuildF ord es hostOrder
+    let model := mEnts ++ "@" ++ showFLayout mFiles
+    match impl.splitOn "@" with
+    | [iEnts, iFiles] =>
+      match parseList parseFFile iFiles ";" with
+      | some fs =>
+        let plainRules := rules.map (·.rule)
+        let reqs := requests plainRules
+        -- JUDGED: requests without headers, against the Spec over the rules without header condition (absent or
+        -- empty list): files with a filter must not answer them nor change the winner.
+        -- NOT JUDGED (outside the quantifier of C04, which ranges over rules of types exact/prefix/begin): requests
+        -- that carry headers satisfying a declared non-empty condition list; what the files answer there is only
+        -- reported in the model column (`!outside-domain:<observation>`).
+        let conds := ((rules.map (·.conds)).filter (· ≠ [])).eraseDups
+        let dbl := plainRules.any fun r => (List.range r.path.length).any fun i => r.path.getD i ' ' = '/' ∧ r.path.getD (i+1) ' ' = '/'
+        let v0 := reqs.findSome? fun (h, p) => checkReqF rules noHeaders fs h p
+        let verdict := v0.map fun b => (if dbl then "empty-path-segment-" else "") ++ b
+        let obs := conds.findSome? fun H =>
+              let sat := reqSat (headersFor H)
+              reqs.findSome? fun (h, p) => (checkReqF rules sat fs h p).map (headerSig rules sat fs h p)
+        let model := model ++ (match obs with | some o => "!outside-domain:" ++ o | none => "")
+        -- when the converters left other entries than predicted: does the maps model explain the files from THOSE entries?
+        let model := if mEnts == iEnts then model else
+          match parseList parseFRule iEnts with
+          | some ie =>
+            let ies : List FEntry := (ie.zip (List.range ie.length)).map fun (r, i) => ⟨addTarget r.rule i, r.decl⟩
+            model ++ "!entries-differ;layout-from-impl-entries=" ++
+              (if rebuildF ord ies (sortG ltStr (hostsOf (ies.map (·.e)))) == fs then "explained" else "differs")
+          | none => model ++ "!entries-differ;unparsed"
+        { model := model, agree := (mEnts == iEnts) && (mFiles == fs), oracle := verdict, trivial := fs.length ≤ 1 }
+      | none => bad "parse-files"
+    | _ => bad "parse-impl"
+  | _, _, _ => bad "parse"
+
 /-- `maps <order> <rules>`; impl output = layout of MatchFiles() -/
 def handle (args : List String) (impl : String) : Verdict :=
   match args with
@@ -70,6 +177,7 @@ def handle (args : List String) (impl : String) : Verdict :=
       { model := showLayout (layouts.headD []), agree := agree, oracle := sig,
         trivial := fs.length ≤ 1 }
     | _, _, _ => bad "parse"
+  | ["conv", mode, ord, rs] => handleConv mode ord rs impl
   | _ => bad "C04"
 
 end HapVerif.C04
